@@ -66,7 +66,7 @@ let check inp obs =
        let below_o i _ _ = for_claimed i (fun () -> tri_of mismatch below) in
        let vrf_o i _ _ _ = for_claimed i (fun () -> tri_of mismatch vrf) in
        let seal_o i _ _ _ = for_claimed i (fun () -> tri_of mismatch seal) in
-       let equiv_o _ _ = if eq = "1" then E else F in
+       let equiv_o _ _ = (match eq with "0" -> F | "2" -> T | _ -> E) in
        let h = { h_rest = (); h_digest = digest } in
        let m = class_of (verify key_valid below_o vrf_o seal_o equiv_o c h) in
        let mm1 = !mismatch in
@@ -79,14 +79,14 @@ let check inp obs =
           is checked there *)
        let in_scope = (allowed = "0" || allowed = "1" || allowed = "2") in
        let prop = (not in_scope || (cls = "ok") = auth) && same = "1" && not mm2 in
-       let eq_ = (m = cls) && same = "1" && not mm1 in
        (* guard of the finding: a well-formed secondary claim of the kind the configuration does not
-          name, accepted exactly as the pre-fix code accepts it *)
-       let wrong_kind = (match decode_predigest data with
-         | Some (SecPlain _) -> c.allowed = n_of_hex "2"
-         | Some (SecVRF _) -> c.allowed = n_of_hex "1"
-         | _ -> false) in
-       let finding = if (not prop || not eq_) && wrong_kind && mp = cls then "secondary-kind-not-checked" else "-" in
+          name.  Inside the guard a REJECTION may carry either the repaired code's error class
+          (ErrBadSlotClaim) or the one the pinned code reaches later; an ACCEPTANCE there is the
+          finding secondary-kind-not-checked (fixes/C24-secondary-kind.patch repairs it). *)
+       let wrong = wrong_kind c digest in
+       let eq_ = (m = cls || (wrong && cls <> "ok" && mp = cls)) && same = "1" && not mm1 in
+       let finding = if not prop && wrong && in_scope && cls = "ok" && mp = cls then "secondary-kind-not-checked" else "-" in
+       let wrong_kind = wrong in
        let kind = (match decode_predigest data with
          | Some (Primary _) -> "primary" | Some (SecPlain _) -> "plain" | Some (SecVRF _) -> "vrf" | None -> "undecodable") in
        { prop_ok = prop; model_eq = eq_; nontrivial = in_scope; finding;
